@@ -581,16 +581,24 @@ def readFrames (p : Pool) : Nat → Bool → Nat → Labels → Bytes → Outcom
       let (rest, l, s) ← readFrames p n false offset l s
       pure ((id, f) :: rest, l, s)
 
-/-- the entry loop of the CLDC `StackMap` attribute -/
+/-- the entry loop of the CLDC `StackMap` attribute: (bytecode offset, frame); labels of `Uninitialized` types are
+created while reading, the labels of the entries themselves only after sorting -/
 def readCldcFrames (p : Pool) : Nat → Labels → Bytes → Outcome (List (Nat × Frame) × Labels × Bytes)
   | 0, l, s => ok ([], l, s)
   | n + 1, l, s => do
     let (o, s) ← u16 s
     let (locals, l, s) ← readVTypes16 p l s
     let (stack, l, s) ← readVTypes16 p l s
-    let (id, l) ← l.getOrCreate o
     let (rest, l, s) ← readCldcFrames p n l s
-    pure ((id, .full locals stack) :: rest, l, s)
+    pure ((o, .full locals stack) :: rest, l, s)
+
+/-- `frames.into_iter().map(|(offset, data)| Ok((labels.get_or_create(offset)?, data)))` -/
+def labelFrames : List (Nat × Frame) → Labels → Outcome (List (Nat × Frame) × Labels)
+  | [], l => ok ([], l)
+  | (o, f) :: r, l => do
+    let (id, l) ← l.getOrCreate o
+    let (rest, l) ← labelFrames r l
+    pure ((id, f) :: rest, l)
 
 /-- one `line_number_table` entry -/
 def readLine (l : Labels) (s : Bytes) : Outcome ((Nat × Nat) × Labels × Bytes) := do
@@ -693,8 +701,9 @@ def readCodeAttr (p : Pool) (st : CodeAttrState) (s : Bytes) : Outcome (CodeAttr
   else if name = sStackMap then do
     let (n, s) ← u16 s
     let (frames, l, s) ← readCldcFrames p n st.labels s
-    -- `frames.sort_by_key(|&(label, _)| label)`: stable, by label *id*
+    -- `frames.sort_by_key(|&(offset, _)| offset)`: stable, by bytecode offset; labels are created afterwards
     let frames := frames.mergeSort (fun a b => decide (a.1 ≤ b.1))
+    let (frames, l) ← labelFrames frames l
     let fr ← insertIfEmpty st.frames frames
     pure ({ st with labels := l, frames := fr }, s)
   else if name = sLineNumberTable then do
